@@ -55,6 +55,16 @@ theorem weighted01_self : ∀ (data : List (Nat × Rat)), weighted01 data (data.
     simp only [List.map_cons, weighted01, if_true, zero_add]
     exact weighted01_self data
 
+/-! ### the default offset -/
+
+theorem zipWith_withOffset_default : ∀ (lam : List Rat),
+    List.zipWith GridSrc.withOffset lam (List.replicate lam.length GridSrc.defaultOffset) = lam
+  | [] => rfl
+  | x :: l => by
+    have ih := zipWith_withOffset_default l
+    simp only [List.length_cons, List.replicate_succ, List.zipWith_cons_cons, ih, List.cons.injEq, and_true]
+    simp [GridSrc.withOffset, GridSrc.defaultOffset]
+
 /-! ### bridge to the Lagrangian of C07 (`Lemmas/Oracle.lean`) -/
 
 theorem dot_eq_moments (a b : List Rat) : Grid.dot a b = Moments.dot a b := rfl
